@@ -1843,6 +1843,21 @@ def run(rep):
                       '%s does not label its body %s (found %r)' % (q, want, mts), simple, f.node)
 
 
+    def render_roots():
+        return [simple.func('BasicRender.render_response'), simple.func('BasicRender._serialize_to_resp'),
+                simple.func('JSONRender.__call__'), simple.func('JSONPRender.__call__'),
+                simple.func('ClasticJSONEncoder.default'), tabular.func('TabularRender.context_to_response')]
+
+    def g_kinds():
+        import sys
+        from . import c17_more
+        c17_more.check_kinds(rep, repo, sys.modules[__name__])
+
+    def g_shared():
+        import sys
+        from . import c17_more
+        c17_more.check_shared(rep, repo, sys.modules[__name__], render_roots())
+
     def safely(fn):
         def group():
             try:
@@ -1858,7 +1873,7 @@ def run(rep):
                                     % (fn.__name__, type(e).__name__, e, tb.filename.rpartition('/')[2], tb.lineno))
         group.__name__ = fn.__name__
         return group
-    for g in (g_names, g_guess, g_render, g_serialize, g_encoder, g_labels, g_templates):
+    for g in (g_names, g_guess, g_render, g_serialize, g_encoder, g_labels, g_templates, g_kinds, g_shared):
         rep.guard(safely(g))
     # floors are checked after all groups ran, so that one unrecognised construct does not hide the others
     for rule_, n_ in (('R17.c', 9),):
